@@ -9,7 +9,7 @@ EN = "bounded-exhaustive enumeration of a finite input grammar against an indepe
 checks = {
  "C01": (MC, "SX", SX, "all operation sequences up to depth 3 (quick) / 4 (thorough) over 2 buckets x 2 keys from 3 seed states on SQL, FS and the deep stack (thorough: all ten stacks); full API-visible state compared with the reference model after every transition", "reference model mc/sx/model.go; SQLite; finite body alphabet"),
  "C02": (MC, "SX", SX, "all versioning histories (Enable/Suspend, put, delete, delete-by-version-id of every live version; rich alphabet adds append, multipart, copy-by-version) up to depth 5/8 on one key and depth 3/5 on two keys; current version, version list and per-version content compared with the model", "model keeps write order explicitly; 1 s virtual time between operations"),
- "C03": (FE, "SX+FAULT", "fault enumeration: every operation of every explored history re-run once per fault site (part-store calls, write-transaction begin, commit, body reads) plus all semantic failures of the alphabet; state before == state after", "every operation of the histories (depth 1-2 with faults, depth 2-3 semantic failures) x every fault site it touches; API observation and database dump must be unchanged after a failed operation", "SQL statement failures inside a transaction are represented by the commit fault; TooManyParts and HTTP-layer limits not exercised"),
+ "C03": (FE, "SX+FAULT", "fault enumeration: every operation of every explored history re-run once per fault site (part-store calls, write-transaction begin, commit through the hook and as a failure of the real sql commit, body reads) plus all semantic failures of the alphabet; state before == state after", "every operation of the histories (depth 1-2 with faults, depth 2-3 semantic failures) x every fault site it touches; API observation and database dump must be unchanged after a failed operation", "SQL statement failures inside a transaction are represented by the commit fault; TooManyParts and HTTP-layer limits not exercised"),
  "C04": (MC, "SX", SX, "write histories over bodies (0 B .. 2.5 MiB), part splittings incl. empty parts, both checksum types, supplied good/bad checksums for all six algorithms; every ETag/checksum of every write result and every version compared with stdlib digests of the model's bytes", "digests recomputed by the Go standard library"),
  "C07": (MC, "SCHED", SC, "all interleavings (preemption bound 2 quick / 3 thorough) of 3-4 conditional/unconditional writers, completes and deletes on one key; call/return history must be linearizable w.r.t. a register with ETag", "SQLite writer serialisation modelled as a lock; PostgreSQL READ COMMITTED interleavings inside a transaction out of scope"),
  "C08": (MC, "SCHED", SC, "all interleavings (bound 2/3) of writers sharing parts (dedup joins, copies, UploadPartCopy, transitions, appends), deletes, overwrites and 1-2 GC passes; every committed object and pending upload must stay readable (also after a final GC)", "single-store worlds (FS external deletes, SQL in-transaction deletes); named-store GC sweeps use Go map order and are only explored sequentially"),
